@@ -34,6 +34,9 @@ def translate(sigpath, repo):
     if sig.get('mode') == 'str':        # string-mode targets (tools/py2v/strmode.py); the other targets never get here
         from strmode import StrModule
         m = StrModule(sigpath, text, os.path.basename(sig['source']))
+    elif sig.get('mode') == 'mapfile':  # mapping-file target (tools/py2v/mapmode.py)
+        from mapmode import MapModule
+        m = MapModule(sigpath, text, os.path.basename(sig['source']))
     else:
         m = Module(sigpath, text, os.path.basename(sig['source']))
     out = m.translate()
